@@ -20,6 +20,7 @@ func init() {
 			{ID: "C10-R5", Doc: "sticky terminal state", Run: c10r5},
 			{ID: "C10-R6", Doc: "combined value stored before refill", Run: c10r6},
 			{ID: "C10-R7", Doc: "the sorter's fill frame is resized to a size clamped from below by a positive constant", Run: c10r7},
+			{ID: "C10-R8", Doc: "a merge heap is heapified after it has been filled", Run: c10r8},
 			{ID: "C17-R7", Doc: "no compound nil/end-of-stream test is constant (shared)", Run: c17r7},
 		},
 	})
